@@ -177,23 +177,18 @@ def isMatch (r : Rx) (s : Str) : Bool :=
   let fuel := (rxSize r + 2) * (s.length + 2) + 8
   (List.range (s.length + 1)).any fun i => !(ends inp fuel r i).isEmpty
 
-/-- `pattern.replace("\\\\", "\\")` -/
-def unDouble : Str → Str
-  | '\\' :: '\\' :: r => '\\' :: unDouble r
-  | c :: r => c :: unDouble r
-  | [] => []
-
-/-- `prepare_regex` after the repair: anchoring by `^(?:…)$`, no quote trimming -/
-def prepare (p : Str) (substr : Bool) : Str :=
-  unDouble (if substr then p else "^(?:".toList ++ p ++ ")$".toList)
+/-- what `^(?:p)$` denotes when `p` denotes `r` -/
+def anchored (r : Rx) : Rx := .seq (.seq (.seq .eps .bol) r) .eol
 
 inductive Verdict where | yes | no | unsupported
   deriving Repr, DecidableEq
 
-/-- model of `regex(lhs, rhs, substr)` on two strings: invalid pattern ⇒ false -/
+/-- model of `regex(lhs, rhs, substr)` on the subject and the pattern (a literal pattern has already lost the doubling of its
+backslashes, `toPatD`): the pattern ITSELF has to be a regular expression – the anchoring wrapper of `match` cannot rescue
+`a)|(b` –, `match` then anchors it, `search` does not; an invalid pattern gives false -/
 def regexFn (s p : Str) (substr : Bool) : Verdict :=
-  match parse (prepare p substr) with
-  | .ok r => if isMatch r s then .yes else .no
+  match parse p with
+  | .ok r => if isMatch (if substr then r else anchored r) s then .yes else .no
   | .invalid => .no
   | .unsupported => .unsupported
 
